@@ -813,6 +813,9 @@ static void recTyped(int thorough)
 		n = wrap(s, 0x06, OIDS[i].o, OIDS[i].n);
 		doOidDec(s, n); doOidFromDer(s, n); doOidDec2(s, n, "1.2"); doOidDec2(s, n, "1.2.840.113549"); doOidDec2(s, n, "2.999"); doOidDec2(s, n, "");
 		doOidDec2(s, n, "1.2.840.11354"); doOidDec2(s, n, "1.2.840.1135490"); doOidDec2(s, n, "2.4294967215");
+		/* one decimal digit off: leading / middle / last digit of a long arc, a one-digit arc */
+		doOidDec2(s, n, "1.2.940.113549"); doOidDec2(s, n, "1.2.840.213549"); doOidDec2(s, n, "1.2.840.113559"); doOidDec2(s, n, "1.2.840.113548");
+		doOidDec2(s, n, "1.3.840.113549"); doOidDec2(s, n, "1.2.841.113549"); doOidDec2(s, n, "2.998"); doOidDec2(s, n, "2.199"); doOidDec2(s, n, "2.3294967215");
 		setCls(OIDS[i].name, "v-garbage-after", 0);
 		s[n] = 0x00; doOidDec(s, n + 1); doOidFromDer(s, n + 1);
 		setCls("v-truncated", OIDS[i].name, 0);
